@@ -35,7 +35,8 @@ def main():
         env = dict(os.environ)
         env['PYTHONHASHSEED'] = str(seed % 4294967295)
         os.execve(sys.executable, [sys.executable] + sys.argv, env)
-    sys.path.insert(0, '/repo')
+    # VERIF_REPO: a scratch copy of the repository (used when trying seeded changes while other checks run on /repo)
+    sys.path.insert(0, os.environ.get('VERIF_REPO', '/repo'))
     sys.path.insert(0, VERIF)
     import logging
     logging.disable(logging.CRITICAL)
